@@ -4,11 +4,13 @@ cd "$(dirname "$0")" || exit 2
 export GOFLAGS=-mod=mod GOPROXY=off GOSUMDB=off GOTOOLCHAIN=local
 mkdir -p .build evidence replays
 go build -o .build/instr ./instr || exit 1
-.build/instr -repo /repo -out .build/ov-setup -sched || exit 1
-go build -overlay .build/ov-setup/overlay.json -tags verif -o .build/vsched.warm ./cmd/vsched || exit 1
-go build -overlay .build/ov-setup/overlay.json -tags verif -o .build/mc.warm ./cmd/mc || exit 1
-go build -overlay .build/ov-setup/overlay.json -tags verif -o .build/n.warm ./cmd/e1native || exit 1
-go build -race -overlay .build/ov-setup/overlay.json -tags verif -o .build/nr.warm ./cmd/e1native || exit 1
+DRV=$(go list -m -f '{{.Dir}}' github.com/Breeze0806/mysql) || exit 1
+.build/instr -repo /repo -out .build/ov-setup -sched -driver "$DRV" || exit 1
+GODEBUG=goindex=0 go build -overlay .build/ov-setup/overlay.json -tags verif -o .build/vsched.warm ./cmd/vsched || exit 1
+.build/instr -repo /repo -out .build/ovn-setup || exit 1
+go build -overlay .build/ovn-setup/overlay.json -tags verif -o .build/mc.warm ./cmd/mc || exit 1
+go build -overlay .build/ovn-setup/overlay.json -tags verif -o .build/n.warm ./cmd/e1native || exit 1
+go build -race -overlay .build/ovn-setup/overlay.json -tags verif -o .build/nr.warm ./cmd/e1native || exit 1
 rm -rf .build/n.warm .build/nr.warm
-rm -rf .build/ov-setup .build/vsched.warm .build/mc.warm
+rm -rf .build/ov-setup .build/ovn-setup .build/vsched.warm .build/mc.warm
 echo setup ok
